@@ -10,7 +10,7 @@ META = {
     "title": "Worklist, union-find and scoped dictionary follow their abstract models",
     "category": "proof",
     "design_ref": "DESIGN.md §5 C12",
-    "lean_modules": ["XdslProofs.C12", "XdslProofs.C12Worklist", "XdslProofs.C12UnionFind"],
+    "lean_modules": ["XdslProofs.C12", "XdslProofs.C12Worklist", "XdslProofs.C12UnionFind", "XdslProofs.C12Generic"],
     "text": (
         "Lean theorems: the tombstoned-stack Worklist refines a duplicate-free LIFO stack for every "
         "history (step_refines/run_refines/history_refines); all ScopedDict lookup forms equal the "
@@ -19,7 +19,11 @@ META = {
         "sizes; the loop fuel is never exhausted, by pigeonhole), and for every history the "
         "represented partition is exactly the equivalence closure of the unions performed "
         "(uf_history/uf_connected), find returns a class member, union/union_left return true iff "
-        "the classes differed and union_left keeps the left representative (uf_union_left_rep). The hand-written models are tied to /repo by running every "
+        "the classes differed and union_left keeps the left representative (uf_union_left_rep); the generic "
+        "DisjointSet wrapper (values, _index_by_value, _base) is modelled too and, for distinct initial "
+        "values and add of new values, every wrapper call is proved to be the IntDisjointSet call on the "
+        "indices (gstep_eq_uf/gds_simulates), KeyError exactly for absent values, with the partition "
+        "theorems transported to values (gstep_refines/gds_history/g_union_left_rep). The hand-written models are tied to /repo by running every "
         "operation sequence up to a bound (exhaustive) plus long random ones on the real classes and "
         "on the Lean driver and diffing every return value."
     ),
@@ -27,8 +31,9 @@ META = {
     "level_note": (
         "Trusted: Lean kernel; hand-written models XdslModel/{Worklist,ScopedDict,DisjointSet}.lean "
         "(tied by correspondence only: all histories up to the bound, random beyond); Python dict/list "
-        "semantics; DisjointSet.add of an already present value is treated as outside the API contract "
-        "('add a new value')."
+        "semantics; DisjointSet.add of an already present value / duplicate initial values are outside "
+        "the API contract ('add a new value'): no oracle and no theorem there, but the Lean model of "
+        "the wrapper is still compared with the code on such inputs."
     ),
     "rule": (
         "worklist: every sequence over {push x, remove x, pop, bool} x∈{0,1,2} up to the length bound, "
@@ -36,6 +41,8 @@ META = {
         "{enter, exit, set k v} (k∈{0,1}, v∈{None,0,1}) with all lookups after every step, non-trivial = "
         "some key bound in ≥2 scopes; union-find: every union/union_left sequence over 4 elements up to "
         "the bound with all find/connected queries after each step, non-trivial = ≥1 successful merge; "
+        "the same for the generic DisjointSet over 3 values + 1 absent value + add (compared with both "
+        "the index model and the value model); "
         "plus seeded random long histories (incl. add and out-of-range KeyError calls). Distinct = "
         "distinct operation sequence."
     ),
@@ -309,16 +316,27 @@ class RefPartition:
         return True
 
 
-def uf_run(n: int, seq, generic: bool) -> tuple[list[str], list[str], list[str] | None]:
-    """Run `seq` on the real IntDisjointSet (or DisjointSet over strings when `generic`).
-    Returns (protocol lines, impl outputs, oracle complaint or None)."""
+def gval(i: int) -> int:
+    """value standing at index i in the generic runs: injective for i < 257, not monotone, never
+    equal to its own index for small i (so an index/value confusion shows)"""
+    return (i * 37 + 11) % 257
+
+
+def uf_run(n: int, seq, generic: bool):
+    """Run `seq` on the real IntDisjointSet (or DisjointSet over the values gval(i) when `generic`).
+    Returns (index-level protocol lines, impl outputs on indices, oracle complaint or None,
+    None | (value-level protocol lines, impl outputs on values))."""
     from xdsl.utils.disjoint_set import DisjointSet, IntDisjointSet
 
+    glines: list[str] = []
+    gout: list[str] = []
     if generic:
-        names = [f"v{i}" for i in range(n)]
-        ds: Any = DisjointSet(names)
-        enc = lambda i: names[i] if 0 <= i < len(names) else f"missing{i}"  # noqa: E731
+        names = [gval(i) for i in range(n)]
+        ds: Any = DisjointSet(list(names))
+        enc = gval  # a value not (yet) added is simply absent -> KeyError
         dec = lambda v: names.index(v)  # noqa: E731
+        glines.append("reset " + " ".join(map(str, names)))
+        gout.append("ok")
     else:
         ds = IntDisjointSet(size=n)
         enc = dec = lambda i: i  # noqa: E731
@@ -333,19 +351,30 @@ def uf_run(n: int, seq, generic: bool) -> tuple[list[str], list[str], list[str] 
 
     for op in seq:
         lines.append(" ".join(map(str, op)))
+        if generic:
+            glines.append(" ".join([op[0]] + [str(gval(x)) for x in op[1:]]) if op[0] != "add"
+                          else f"add {gval(len(names))}")
         try:
             if op[0] == "add":
                 if generic:
-                    names.append(f"v{len(names)}")
-                    ds.add(names[-1])
+                    names.append(gval(len(names)))
+                    res = ds.add(names[-1])
+                    gout.append("none" if res is None else f"unexpected {res!r}")
                     r = len(names) - 1
+                    if len(ds) != len(names):
+                        bad("len() after add is not the number of values")
                 else:
                     r = ds.add()
                 if r != ref.add():
                     bad("add returned wrong index")
                 out.append(f"nat {r}")
             elif op[0] == "find":
-                r = dec(ds.find(enc(op[1])) if generic else ds[op[1]])
+                if generic:
+                    v = ds.find(enc(op[1]))
+                    gout.append(f"val {v}")
+                    r = dec(v)
+                else:
+                    r = ds[op[1]]
                 out.append(f"nat {r}")
                 if not ref.same(r, op[1]):
                     bad(f"find({op[1]}) = {r} is not in the class of {op[1]}")
@@ -356,6 +385,8 @@ def uf_run(n: int, seq, generic: bool) -> tuple[list[str], list[str], list[str] 
                     rep_before = dec(ds.find(enc(op[1])) if generic else ds[op[1]])
                 r = getattr(ds, op[0])(enc(op[1]), enc(op[2]))
                 out.append("bool " + ("true" if r else "false"))
+                if generic:
+                    gout.append(out[-1])
                 exp = ref.merge(op[1], op[2])
                 if r != exp:
                     bad(f"{op[0]}{op[1:]} returned {r}, classes were {'distinct' if exp else 'equal'}")
@@ -366,21 +397,65 @@ def uf_run(n: int, seq, generic: bool) -> tuple[list[str], list[str], list[str] 
             elif op[0] == "connected":
                 r = ds.connected(enc(op[1]), enc(op[2]))
                 out.append("bool " + ("true" if r else "false"))
+                if generic:
+                    gout.append(out[-1])
                 if r != ref.same(op[1], op[2]):
                     bad(f"connected{op[1:]} = {r} but reference partition says {ref.same(op[1], op[2])}")
             elif op[0] == "roots":
-                rs = sorted(dec(x) for x in ds.roots())
+                raw = list(ds.roots())
+                if generic:
+                    gout.append("roots " + " ".join(map(str, sorted(raw))))
+                rs = sorted(dec(x) for x in raw)
                 out.append("roots " + " ".join(map(str, rs)))
                 if len(rs) != len({id(c) for c in ref.cls}):
                     bad("number of roots differs from number of classes")
         except KeyError:
             out.append("raise KeyError")
+            if generic:
+                gout.append("raise KeyError")
             if all(0 <= x < len(ref.cls) for x in op[1:] if isinstance(x, int)):
                 bad(f"{op} raised KeyError for present elements")
         except Exception as e:  # noqa: BLE001
             out.append("raise " + core.exc_name(e))
+            if generic:
+                gout.append(out[-1])
             bad(f"{op} raised {core.exc_name(e)}")
-    return lines, out, complaint
+    if generic:
+        glines.append("len")
+        gout.append(f"nat {len(ds)}")
+    return lines, out, complaint, ((glines, gout) if generic else None)
+
+
+def gds_canon(model_lines: list[str]) -> list[str]:
+    """the order of `roots()` is not part of the property: compare it sorted"""
+    return [("roots " + " ".join(map(str, sorted(int(x) for x in l.split()[1:]))))
+            if l.startswith("roots") and all(x.isdigit() for x in l.split()[1:]) else l for l in model_lines]
+
+
+def gds_raw_run(init: list[int], seq) -> tuple[list[str], list[str]]:
+    """Run value-level operations on the real DisjointSet WITHOUT assuming the contract (duplicate
+    initial values, `add` of a present value): correspondence with the Lean model only, no oracle —
+    the property says nothing there, but the model claims to mirror the code for every input."""
+    from xdsl.utils.disjoint_set import DisjointSet
+
+    ds: Any = DisjointSet(list(init))
+    lines, out = ["reset " + " ".join(map(str, init))], ["ok"]
+    for op in seq:
+        lines.append(" ".join(map(str, op)))
+        try:
+            if op[0] == "add":
+                res = ds.add(op[1]); out.append("none" if res is None else f"unexpected {res!r}")
+            elif op[0] == "find":
+                out.append(f"val {ds.find(op[1])}")
+            elif op[0] == "roots":
+                out.append("roots " + " ".join(map(str, sorted(ds.roots()))))
+            elif op[0] == "len":
+                out.append(f"nat {len(ds)}")
+            else:
+                out.append("bool " + ("true" if getattr(ds, op[0])(op[1], op[2]) else "false"))
+        except Exception as e:  # noqa: BLE001
+            out.append("raise " + core.exc_name(e))
+    return lines, out
 
 
 def run_union_find(ctx: core.Ctx, maxlen: int, nrandom: int) -> None:
@@ -397,6 +472,15 @@ def run_union_find(ctx: core.Ctx, maxlen: int, nrandom: int) -> None:
             # exercised because queries themselves mutate the forest
             seq.extend(queries)
             cases.append((n, tuple(seq), False))
+    # the generic wrapper, exhaustively: 3 present values, value 3 absent until an `add`; every
+    # union/union_left/add sequence up to the bound, then all queries (incl. the absent value)
+    gn = 3
+    gmuts = [(k, a, b) for k in ("union", "union_left") for a in range(gn + 1) for b in range(gn + 1)] + [("add",)]
+    gqueries = ([("find", a) for a in range(gn + 2)]
+                + [("connected", a, b) for a in range(gn + 1) for b in range(a, gn + 1)] + [("roots",)])
+    for L in range(0, maxlen + 1):
+        for ms in itertools.product(gmuts, repeat=L):
+            cases.append((gn, tuple(ms) + tuple(gqueries), True))
     for _ in range(nrandom):
         nn = ctx.rng.randint(1, 24)
         seq = []
@@ -420,8 +504,14 @@ def run_union_find(ctx: core.Ctx, maxlen: int, nrandom: int) -> None:
         cases.append((nn, tuple(seq), ctx.rng.random() < 0.5))
     all_lines: list[str] = []
     all_impl: list[str] = []
+    g_lines: list[str] = []
+    g_impl: list[str] = []
     for nn, seq, generic in cases:
-        lines, impl, complaint = uf_run(nn, seq, generic)
+        lines, impl, complaint, gen = uf_run(nn, seq, generic)
+        if gen is not None:
+            g_lines.extend(gen[0])
+            g_impl.extend(gen[1])
+            ctx.count("union_find.generic_cases")
         ctx.ev()
         if any(o == "bool true" for o, l in zip(impl, lines) if l.startswith("union")):
             ctx.nt(("uf", nn, seq, generic))
@@ -445,6 +535,28 @@ def run_union_find(ctx: core.Ctx, maxlen: int, nrandom: int) -> None:
         j = max(k for k in range(i + 1) if all_lines[k].startswith("reset"))
         ctx.mismatch("correspondence:C12/int_disjoint_set", {"structure": "union_find", "lines": all_lines[j: i + 1]},
                      all_impl[j: i + 1], model[j: i + 1])
+    # the generic wrapper against its own Lean model (values, not indices)
+    rnd = ctx.rng
+    for _ in range(max(50, nrandom // 4)):
+        init = [rnd.randrange(5) for _ in range(rnd.randint(0, 5))]
+        seq = []
+        for _ in range(rnd.randint(3, 40)):
+            r = rnd.random()
+            a, b = rnd.randrange(7), rnd.randrange(7)
+            seq.append(("add", a) if r < 0.15 else ("union", a, b) if r < 0.35 else ("union_left", a, b) if r < 0.55
+                       else ("find", a) if r < 0.75 else ("connected", a, b) if r < 0.9 else ("roots",) if r < 0.95 else ("len",))
+        lines, impl = gds_raw_run(init, seq)
+        g_lines.extend(lines)
+        g_impl.extend(impl)
+        ctx.ev()
+        ctx.count("union_find.generic_uncontracted_cases")
+    ctx.count("union_find.generic_lines", len(g_lines))
+    gmodel = gds_canon(ctx.model("disjoint_set", g_lines))
+    i = core.diff_streams(g_impl, gmodel)
+    if i is not None:
+        j = max(k for k in range(i + 1) if g_lines[k].startswith("reset"))
+        ctx.mismatch("correspondence:C12/disjoint_set", {"structure": "union_find", "glines": g_lines[j: i + 1]},
+                     g_impl[j: i + 1], gmodel[j: i + 1])
     nn, seq, generic = cases[len(cases) // 3]
     ctx.sample({"structure": "union_find", "n": nn, "generic": generic, "ops": [list(o) for o in seq][:12]})
 
@@ -481,8 +593,20 @@ def replay(ctx: core.Ctx, body: dict) -> int:
     else:
         if "ops" in case:
             seq = [tuple(o) for o in case["ops"]]
-            lines, impl, complaint = uf_run(case["n"], seq, case.get("generic", False))
+            lines, impl, complaint, gen = uf_run(case["n"], seq, case.get("generic", False))
             spec = complaint
+            if gen is not None:
+                print("generic wrapper, implementation:", gen[1])
+                print("generic wrapper, lean model    :", gds_canon(ctx.model("disjoint_set", gen[0])))
+        elif "glines" in case:
+            lines = case["glines"]; spec = None
+            seq = [tuple(int(x) if x.isdigit() else x for x in l.split()) for l in lines[1:]]
+            impl = gds_raw_run([int(x) for x in lines[0].split()[1:]], seq)[1]
+            print("implementation:", impl)
+            print("lean model    :", gds_canon(ctx.model("disjoint_set", lines)))
+            bad = impl != gds_canon(ctx.model("disjoint_set", lines))
+            print("implementation and model", "DIFFER" if bad else "agree", "on this case")
+            return 1 if bad else 0
         else:
             lines = case["lines"]; impl = body.get("impl_observation"); spec = None
         model = ctx.model("int_disjoint_set", lines)
